@@ -4,7 +4,8 @@
    Model: Model/Diag.v (diagnostics_manager.go), Model/Events.v (handlers, HandleFileEventChanges, file index, error
    collection); the per-file analyses are the fields of `analysis` (any instance satisfying `analysis_ok`).
    Spec: Spec/FreshStart.v (`fresh_view`, `demanded`, `conformant`, the finding classes, `guard`).
-   `fixes` switches the repairs on: `deployed` (Model/Events.v) = the code as it is now (eight repairs), `round3` = without
+   `fixes` switches the repairs on: `deployed` (Model/Events.v) = the code as it is now (nine repairs), `round4` = without
+   the changed-unknown repair (fixes/C08-changed-unknown.diff), `round3` = also without
    the didOpen repair (fixes/C02-didopen-analysed.diff), `round2` = also without the outside-file repair, `round1` = the code
    after round 1 (four repairs), `no_fix` = the code before any fix: commit.
    General theorems are quantified over all flag values. *)
@@ -26,7 +27,15 @@ Local Open Scope N_scope.
         moment on (it is in `dirty`), so the statement says of it what it says of every unsaved edit - the client is shown
         exactly the syntax errors of t if t has any, else the non-syntax diagnostics of the fresh start
         (C08_open_text_view spells that instance out). The file must exist and the document must not be open already
-        (otherwise the action is a no-op of the editor model, as for AOpen) ---- *)
+        (otherwise the action is a no-op of the editor model, as for AOpen).
+        Since the changed-unknown repair `conformant` also lets a watched-files notification say "changed" of a file that
+        was NOT there before (a watcher that reports a new file as changed; item WM f t with f absent from the disk):
+        HandleFileEventChanges handles it like "created"; and, for the same reason, lets the editor SAVE a buffer whose
+        file has been deleted (ASave f with f absent from the disk: the didSave alone brings the file back into the
+        project; before, the client's watcher had to report the creation as well). Before (`round4`) such notifications
+        were outside the conformant histories, and the code deviated on them (C08_changed_unknown_before_fix,
+        C08_save_of_deleted_file; C08_conformance_widened / C08_conformance_widened_strictly say how the hypothesis
+        got weaker) ---- *)
 Definition C08_full : Prop :=
   forall (A : analysis), analysis_ok A ->
   forall (dk : amap (text A)) (h : list (action A)),
@@ -175,6 +184,28 @@ Proof.
 Qed.
 Print Assumptions C08_guarded_round3.
 
+(* the instance for the code without the changed-unknown repair (the full statement of the round before): the conformance
+   predicate of that code is stricter - "changed" is only said of a file that was there before the notification, a buffer
+   is only saved while its file exists *)
+Theorem C08_guarded_round4 :
+  forall (A : analysis), analysis_ok A ->
+  forall (dk : amap (text A)) (h : list (action A)),
+    conformant A round4 dk h = true ->
+    forall f, Permutation (view (snd (run A round4 dk h)) f) (demanded A round4 (fst (run A round4 dk h)) f).
+Proof.
+  exact (fun A HA dk h Hc =>
+           guarded_view A round4 HA dk h (repaired_guard A round4 dk h eq_refl (or_introl eq_refl) (or_introl eq_refl) Hc)).
+Qed.
+Print Assumptions C08_guarded_round4.
+
+(* what the changed-unknown repair does to the hypothesis `conformant` of the full statement: in every world every action
+   that was conformant stays conformant ... *)
+Theorem C08_conformance_widened :
+  forall (A : analysis) (w : world A) (a : action A),
+    conf_action A round4 w a = true -> conf_action A deployed w a = true.
+Proof. exact conformance_widened. Qed.
+Print Assumptions C08_conformance_widened.
+
 (* no document has unsaved edits  =>  the client holds what a fresh start on the current files publishes *)
 Theorem C08_incremental_eq_fresh :
   forall (A : analysis) (fx : fixes), analysis_ok A ->
@@ -244,7 +275,59 @@ Theorem C08_index_refines_repaired :
 Proof. vm_compute. reflexivity. Qed.
 Print Assumptions C08_index_refines_repaired.
 
-(* ---- repaired last (fixes/C02-didopen-analysed.diff; C02's finding open_text_not_disk seen from the diagnostics): the text
+(* ---- repaired last (fixes/C08-changed-unknown.diff; class changed_unknown of round 6): a watched-file event says "changed"
+        of a path that is not a file of the project when HandleFileEventChanges comes to it. b.lua requires a; a.lua does not
+        exist; it is created and the watcher reports it as changed: the repaired code enters it into allFilesMap and the
+        index like a created file, b.lua's `require file error` goes away as after a fresh start. Before the repair the file
+        got a first pass only: b.lua kept its type 6 (and the notification was not a conformant one) ---- *)
+Definition w_changed_unknown_dk : amap (list stmt) := [(1, [SR 0])].
+Definition w_changed_unknown : list (action toyA) := [AWatched [WM 0 [SC]]].
+Theorem C08_changed_unknown_repaired : toy_meets deployed w_changed_unknown_dk w_changed_unknown.
+Proof. repaired. Qed.
+Print Assumptions C08_changed_unknown_repaired.
+(* ... and C08_conformance_widened is strict: this history is conformant for the repaired code only *)
+Example C08_conformance_widened_strictly :
+  conformant toyA deployed w_changed_unknown_dk w_changed_unknown = true /\
+  conformant toyA round4 w_changed_unknown_dk w_changed_unknown = false.
+Proof. vm_compute. split; reflexivity. Qed.
+Example C08_changed_unknown_before_fix :
+  view (snd (run toyA round4 w_changed_unknown_dk w_changed_unknown)) 1 = [(6, 0, 0)] /\
+  demanded toyA round4 (fst (run toyA round4 w_changed_unknown_dk w_changed_unknown)) 1 = [] /\
+  p_files (pj (sv (fst (run toyA round4 w_changed_unknown_dk w_changed_unknown)))) = [1] /\
+  view (snd (run toyA deployed w_changed_unknown_dk w_changed_unknown)) 1 = [] /\
+  p_files (pj (sv (fst (run toyA deployed w_changed_unknown_dk w_changed_unknown)))) = [0; 1].
+Proof. vm_compute. repeat split; reflexivity. Qed.
+(* the same repair through didSave: a.lua is open, deleted on disk (watched Deleted), edited and saved: the save re-creates the
+   file, its Changed event (TextDocumentDidSave goes through HandleFileEventChanges) finds a path that is not a project file.
+   Repaired code: a.lua is a project file again, b.lua's `require file error` is gone, as after a fresh start; before: a.lua
+   analysed but not a member, b.lua kept its type 6 (and the history was not a conformant one) *)
+Definition w_save_deleted_dk : amap (list stmt) := [(0, [SL]); (1, [SR 0])].
+Definition w_save_deleted : list (action toyA) := [AOpen 0; AWatched [@WD toyA 0]; AChange 0 [SC]; ASave 0].
+Theorem C08_save_of_deleted_file_repaired : toy_meets deployed w_save_deleted_dk w_save_deleted.
+Proof. repaired. Qed.
+Print Assumptions C08_save_of_deleted_file_repaired.
+Example C08_save_of_deleted_file :
+  conformant toyA deployed w_save_deleted_dk w_save_deleted = true /\
+  conformant toyA round4 w_save_deleted_dk w_save_deleted = false /\
+  view (snd (run toyA round4 w_save_deleted_dk w_save_deleted)) 1 = [(6, 0, 0)] /\
+  demanded toyA round4 (fst (run toyA round4 w_save_deleted_dk w_save_deleted)) 1 = [] /\
+  view (snd (run toyA deployed w_save_deleted_dk w_save_deleted)) 1 = [] /\
+  p_files (pj (sv (fst (run toyA deployed w_save_deleted_dk w_save_deleted)))) = [0; 1].
+Proof. vm_compute. repeat split; reflexivity. Qed.
+
+(* the witness of round 6: ONE notification `[Deleted a, Changed a]` for a file that was removed and re-created (not a
+   conformant notification - it names a path twice -, so no theorem speaks about it; the model takes it event by event as
+   the code does, leg c08.samepath): the repaired code ends with both files in the project and the fresh start's view *)
+Definition w_changed_unknown2_dk : amap (list stmt) := [(0, [SL]); (1, [SR 0])].
+Definition w_changed_unknown2 : list (action toyA) := [AWatched [@WD toyA 0; WM 0 [SC]]].
+Example C08_changed_unknown_same_path :
+  view (snd (run toyA round4 w_changed_unknown2_dk w_changed_unknown2)) 1 = [(6, 0, 0)] /\
+  demanded toyA round4 (fst (run toyA round4 w_changed_unknown2_dk w_changed_unknown2)) 1 = [] /\
+  view (snd (run toyA deployed w_changed_unknown2_dk w_changed_unknown2)) 1 = [] /\
+  p_files (pj (sv (fst (run toyA deployed w_changed_unknown2_dk w_changed_unknown2)))) = [0; 1].
+Proof. vm_compute. repeat split; reflexivity. Qed.
+
+(* ---- repaired before that (fixes/C02-didopen-analysed.diff; C02's finding open_text_not_disk seen from the diagnostics): the text
         carried by didOpen is analysed. a.lua on disk is `g1 = 1`; the editor restores an unsaved buffer `g2 = 1` `)` for it:
         the client is shown the buffer's syntax error at once (before the repair: nothing, until the first didChange);
         then the buffer is repaired, saved and closed ---- *)
@@ -522,3 +605,14 @@ Theorem C08_indir_multi_root_regression :
   view (snd (run toyA_all deployed w_indir_dk w_indir_all)) 4 = [(1, 1, 0)].
 Proof. exact indir_multi_root_meets. Qed.
 Print Assumptions C08_indir_multi_root_regression.
+
+(* ---- the toy analysis follows fix 1d8cbd1 (C07's class later_elsewhere): a top-level use of a global that the same file
+        defines only further down is a load-order error (type 3) only when no OTHER file of the pass defines that global.
+        a.lua `gf(1, 2, 3)` `function gf(a) end`, b.lua `function gf(a, b) end`: a.lua gets the type 10 of the call only;
+        without b.lua it gets the type 3 as well (the case `A a=gf1,b=f2 -` of leg c08.history) ---- *)
+Example C08_load_order_other_file :
+  view (snd (run toyA deployed [(0, [SG; SF 1]); (1, [SF 2])] [])) 0 = [(10, 0, 2)] /\
+  view (snd (run toyA deployed [(0, [SG; SF 1])] [])) 0 = [(3, 0, 100); (10, 0, 1)] /\
+  view (snd (run toyA deployed [(0, [SU 1; SD 1]); (1, [SD 1])] [])) 0 = [] /\
+  view (snd (run toyA deployed [(0, [SU 1; SD 1]); (1, [SD 2])] [])) 0 = [(3, 0, 1)].
+Proof. vm_compute. repeat split; reflexivity. Qed.
